@@ -848,6 +848,71 @@ def _case_holstein(ctx, prm):
             for k in (0, 1):
                 ctx.count("scheme_spectra")
                 _cmp(ctx, spectra[s][k], spectra[4][k], 1e-9, f"HolsteinModel|spectrum-differs-between-schemes|{k}-exciton-sector")
+    # ---- documented accessors of the packaged model: switch_scheme, gs_zpe, j_constant ------------------------------
+    s1, s2 = int(rng.integers(1, 5)), int(rng.integers(1, 5))
+    base = _call(HolsteinModel, mol_objs, jarg if isinstance(jarg, Quantity) else jarg.copy(), scheme=s1, periodic=periodic)
+    if _promised(ctx, base, "HolsteinModel|constructor"):
+        Jb = np.array(base.j_matrix, dtype=float)
+        sw = _call(base.switch_scheme, s2)
+        if _promised(ctx, sw, "HolsteinModel.switch_scheme"):
+            ctx.cls("holstein-switch-scheme")
+            ctx.count("oracle")
+            ctx.check(sw.scheme == s2, "HolsteinModel.switch_scheme|scheme-not-switched", got=sw.scheme, want=s2)
+            Hsw = _call(dense.op_dense, sw.basis, sw.ham_terms)
+            if _promised(ctx, Hsw, "HolsteinModel.switch_scheme|terms-not-representable"):
+                ref2, dims2, _ = _holstein_ref(mols, Jb, s2)
+                ctx.count("oracle")
+                if ctx.check([b.nbas for b in sw.basis] == dims2, "HolsteinModel.switch_scheme|site-layout-differs"):
+                    _cmp(ctx, Hsw, ref2, TOL, "HolsteinModel.switch_scheme|hamiltonian-differs-from-displaced-oscillator")
+        zpe = _call(lambda: base.gs_zpe)
+        if _promised(ctx, zpe, "HolsteinModel.gs_zpe"):
+            _cmp(ctx, zpe, sum(0.5 * m[0] for mo in mols for m in mo["modes"]), 1e-12, "HolsteinModel.gs_zpe|not-half-the-sum-of-frequencies")
+        # ---- the packaged operator constructors for this model class ---------------------------------------------
+        from renormalizer.model import Op
+        from renormalizer.mps import Mpo
+        e_dofs = list(base.e_dofs)
+        v_dofs = list(base.v_dofs)
+        opera = r"a^\dagger a" if s1 == 4 else [r"a^\dagger a", r"a^\dagger", "a"][int(rng.integers(0, 3))]
+        sub = None if rng.random() < 0.5 else [e_dofs[i] for i in sorted(rng.choice(len(e_dofs), size=int(rng.integers(1, len(e_dofs) + 1)), replace=False).tolist())]
+        got = _call(lambda: Mpo.onsite(base, opera, dof_set=sub).todense())
+        if _promised(ctx, got, "Mpo.onsite"):
+            ctx.cls("Mpo.onsite")
+            want = dense.op_dense(base.basis, [Op(opera, d) for d in (sub if sub is not None else e_dofs)])
+            _cmp(ctx, got, want, 1e-12, "Mpo.onsite|not-the-sum-of-the-local-operators")
+        if v_dofs:
+            vd = v_dofs[int(rng.integers(0, len(v_dofs)))]
+            vop = ["b", r"b^\dagger", r"b^\dagger b"][int(rng.integers(0, 3))]
+            got = _call(lambda: Mpo.ph_onsite(base, vop, vd[0], vd[1]).todense())
+            if _promised(ctx, got, "Mpo.ph_onsite"):
+                ctx.cls("Mpo.ph_onsite")
+                _cmp(ctx, got, dense.op_dense(base.basis, [Op(vop, vd)]), 1e-12, "Mpo.ph_onsite|not-the-local-operator")
+            if s1 != 4:
+                i1 = e_dofs[int(rng.integers(0, len(e_dofs)))]
+                e_ops = {i1: r"a^\dagger a"}
+                if len(e_dofs) >= 2:
+                    i2 = [d for d in e_dofs if d != i1][int(rng.integers(0, len(e_dofs) - 1))]
+                    e_ops = {i1: r"a^\dagger", i2: "a"}
+                su = units[int(rng.integers(0, 4))]
+                sv = float(rng.uniform(-2, 2))
+                got = _call(lambda: Mpo.intersite(base, e_ops, {vd: vop}, Quantity(sv, su)).todense())
+                if _promised(ctx, got, "Mpo.intersite"):
+                    ctx.cls("Mpo.intersite")
+                    prod = Op.product([Op(o, k) for k, o in e_ops.items()] + [Op(vop, vd)])
+                    want = _au(sv, su) * dense.op_dense(base.basis, [prod])
+                    _cmp(ctx, got, want, 1e-12, "Mpo.intersite|not-the-scaled-product-of-the-local-operators")
+        vals = set(np.round(Jb.ravel(), 15).tolist())
+        jc = _call(lambda: base.j_constant)
+        ctx.count("oracle")
+        if len(vals) == 1 or (len(vals) == 2 and 0.0 in vals):
+            # "Extract electronic coupling constant from j_matrix": all couplings equal (the diagonal is zero)
+            want_j = max(vals, key=abs)
+            ctx.cls("holstein-j-constant" if want_j != 0 else "holstein-j-constant-zero")
+            if _promised(ctx, jc, "HolsteinModel.j_constant|constant-J"):
+                _cmp(ctx, jc, want_j, 1e-12, "HolsteinModel.j_constant|wrong-value", floor=1e-12)
+        else:
+            ctx.cls("holstein-j-not-constant")
+            ctx.check(isinstance(jc, _Crash) and isinstance(jc.exc, ValueError), "HolsteinModel.j_constant|non-constant-J-accepted",
+                      got=repr(jc))
 
 
 # ------------------------------------------------------------------------------------------ SpinBosonModel
@@ -1094,6 +1159,16 @@ def _case_quantity(ctx, prm):
         _cmp(ctx, (q + Quantity(1.0, u2)).as_au(), au + 1.0 / upa[u2], 1e-11, "Quantity|addition")
         _cmp(ctx, (q * 3).as_au(), 3 * au, 1e-13, "Quantity|scalar-multiplication")
         _cmp(ctx, (-q).as_au(), -au, 1e-15, "Quantity|negation")
+        _cmp(ctx, (q - Quantity(1.0, u2)).as_au(), au - 1.0 / upa[u2], 1e-11, "Quantity|subtraction", floor=1e-12)
+        _cmp(ctx, (3 * q).as_au(), 3 * au, 1e-13, "Quantity|scalar-multiplication-from-the-left")
+        _cmp(ctx, (q / 4).as_au(), au / 4, 1e-13, "Quantity|scalar-division")
+        ctx.count("oracle", 3)
+        same_q = _call(lambda: q == Quantity(v, u.lower()))
+        ctx.check(same_q is True, "Quantity|equality|equal-quantities-compare-unequal", got=repr(same_q))
+        other_q = _call(lambda: q != Quantity(v * 1.5 + 1.0, u))
+        ctx.check(other_q is True, "Quantity|equality|different-quantities-compare-equal", got=repr(other_q))
+        zero_q = _call(lambda: (Quantity(0.0, u) == 0, q == 0))
+        ctx.check(zero_q == (True, v == 0), "Quantity|equality|comparison-with-zero", got=repr(zero_q))
     ctx.count("oracle", 2)
     ctx.check(Quantity(0, "K").to_beta() == math.inf, "Quantity|to_beta|zero-temperature-not-inf")
     t = 300.0
@@ -1102,8 +1177,105 @@ def _case_quantity(ctx, prm):
     ctx.check(isinstance(r, _Crash) and isinstance(r.exc, ValueError), "Quantity|unknown-unit-accepted")
 
 
+# ------------------------------------------------------------------------------------------------ Phonon / Mol
+def _case_phonon(ctx, prm):
+    """Derived quantities of the vibration / molecule parameter objects against their closed forms: reorganisation energy
+    lambda = (d1-d0)^2 w1^2 / 2, coupling constant g = sqrt(lambda / w0), zero-point energies, the displaced-oscillator
+    eigenvectors, the automatic choice of the number of levels and the splitting of a mode."""
+    from renormalizer.model import Mol, Phonon
+    from renormalizer.utils import Quantity
+    rng = ctx.rng
+    upa = _unit_per_au()
+    ctx.describe({"class": "Phonon/Mol"})
+    ctx.cls("Phonon")
+    phs, lams, w0s, w1s = [], [], [], []
+    for _ in range(int(rng.integers(1, 4))):
+        wu = ["a.u.", "cm-1", "eV", "meV"][int(rng.integers(0, 4))]
+        w0 = float(10 ** rng.uniform(-3, 0.3))
+        w1 = w0 if rng.random() < 0.5 else float(w0 * rng.uniform(0.5, 1.8))
+        d0 = 0.0 if rng.random() < 0.7 else float(rng.uniform(-1, 1))
+        d1 = float(rng.uniform(-2, 2) / math.sqrt(w0))
+        N = int(rng.integers(2, 40))
+        ph = _call(Phonon, [Quantity(w0 * upa[wu], wu), Quantity(w1 * upa[wu], wu)], [Quantity(d0), Quantity(d1)], N)
+        if not _promised(ctx, ph, "Phonon|constructor"):
+            return
+        lam = 0.5 * (d1 - d0) ** 2 * w1 ** 2
+        g = math.sqrt(lam / w0)
+        ctx.nontrivial(("Phonon", wu, round(w0, 6), round(w1 / w0, 4), round(d1, 4), N))
+        _cmp(ctx, ph.omega, [w0, w1], 1e-12, "Phonon|omega-not-in-atomic-units")
+        _cmp(ctx, ph.reorganization_energy.as_au(), lam, 1e-12, "Phonon.reorganization_energy|closed-form", floor=1e-300)
+        _cmp(ctx, ph.e0.as_au(), lam, 1e-12, "Phonon.e0|closed-form", floor=1e-300)
+        _cmp(ctx, ph.coupling_constant, g, 1e-12, "Phonon.coupling_constant|closed-form", floor=1e-300)
+        ctx.count("oracle", 2)
+        ctx.check(ph.nlevels == N and ph.pbond == N, "Phonon|number-of-levels", got=(ph.nlevels, ph.pbond), want=N)
+        ctx.check(bool(ph.is_simple) == (w0 == w1), "Phonon.is_simple")
+        # eigenvectors of n - g (b + b^dagger) in N levels
+        ev = _call(ph.get_displacement_evecs)
+        if _promised(ctx, ev, "Phonon.get_displacement_evecs"):
+            h = np.diag(np.arange(N, dtype=float))
+            for i in range(N - 1):
+                h[i + 1, i] = h[i, i + 1] = -g * math.sqrt(i + 1)
+            w = np.linalg.eigvalsh(h)
+            ev = np.asarray(ev)
+            _cmp(ctx, ev.T @ ev, np.eye(N), 1e-10, "Phonon.get_displacement_evecs|not-orthonormal")
+            _cmp(ctx, ev.T @ h @ ev, np.diag(w), 1e-9, "Phonon.get_displacement_evecs|not-the-ascending-eigenvectors-of-the-displaced-oscillator",
+                 floor=max(1.0, float(np.abs(w).max())))
+        phs.append(ph)
+        lams.append(lam)
+        w0s.append(w0)
+        w1s.append(w1)
+    eu = ["a.u.", "eV", "cm-1", "meV"][int(rng.integers(0, 4))]
+    e = float(rng.uniform(0, 0.2))
+    mol = _call(Mol, Quantity(e * upa[eu], eu), phs)
+    if _promised(ctx, mol, "Mol|constructor"):
+        ctx.cls("Mol")
+        _cmp(ctx, mol.elocalex, e, 1e-12, "Mol.elocalex|not-in-atomic-units", floor=1e-300)
+        _cmp(ctx, mol.reorganization_energy, sum(lams), 1e-12, "Mol.reorganization_energy|not-the-sum-over-modes", floor=1e-300)
+        _cmp(ctx, mol.e0, sum(lams), 1e-12, "Mol.e0|not-the-sum-over-modes", floor=1e-300)
+        _cmp(ctx, mol.gs_zpe, 0.5 * sum(w0s), 1e-12, "Mol.gs_zpe|not-half-the-sum-of-ground-frequencies")
+        _cmp(ctx, mol.ex_zpe, 0.5 * sum(w1s), 1e-12, "Mol.ex_zpe|not-half-the-sum-of-excited-frequencies")
+    none = _call(Mol, Quantity(0.1), [])
+    ctx.count("oracle")
+    ctx.check(isinstance(none, _Crash) and isinstance(none.exc, ValueError), "Mol|empty-mode-list-accepted")
+    # ---- simple_phonon / simplest_phonon -----------------------------------------------------------------------
+    w = float(10 ** rng.uniform(-3, 0))
+    gt = float(rng.uniform(0.05, 3.0))             # target coupling constant
+    lam_t = gt ** 2 * w
+    d = math.sqrt(2 * lam_t) / w
+    sp = _call(Phonon.simple_phonon, Quantity(w), Quantity(d), 7)
+    if _promised(ctx, sp, "Phonon.simple_phonon"):
+        ctx.count("oracle")
+        ctx.check(list(sp.omega) == [w, w] and list(sp.dis) == [0.0, d] and sp.n_phys_dim == 7, "Phonon.simple_phonon|parameters",
+                  omega=sp.omega, dis=sp.dis)
+    use_lam = bool(rng.random() < 0.5)
+    ctx.cls("simplest_phonon:lam" if use_lam else "simplest_phonon:displacement")
+    auto = _call(Phonon.simplest_phonon, Quantity(w), Quantity(lam_t) if use_lam else Quantity(d), lam=use_lam)
+    if _promised(ctx, auto, "Phonon.simplest_phonon"):
+        _cmp(ctx, auto.reorganization_energy.as_au(), lam_t, 1e-10, "Phonon.simplest_phonon|reorganisation-energy-not-the-requested-one")
+        _cmp(ctx, auto.omega, [w, w], 1e-12, "Phonon.simplest_phonon|frequency")
+        n_auto = int(auto.n_phys_dim)
+        ctx.count("oracle", 2)
+        ctx.check(2 <= n_auto <= 128, "Phonon.simplest_phonon|levels-outside-the-documented-cap", got=n_auto)
+        # "detect pdim automatically": the displaced ground state must fit - its exact occupation of level n is Poissonian
+        # with mean g^2, so the weight beyond the chosen levels has to be small
+        tail = 1.0 - sum(math.exp(-gt ** 2 + k * math.log(gt ** 2) - math.lgamma(k + 1)) for k in range(n_auto))
+        ctx.metric_max("simplest_phonon_tail_weight", max(tail, 0.0))
+        ctx.check(tail <= 1e-4, "Phonon.simplest_phonon|chosen-levels-do-not-hold-the-displaced-ground-state", levels=n_auto, g=gt,
+                  weight_beyond=tail)
+    # ---- split ---------------------------------------------------------------------------------------------------
+    if sp is not None and not isinstance(sp, _Crash):
+        n = int(rng.integers(2, 6))
+        parts = _call(sp.split, n, Quantity(float(rng.uniform(0.01, 0.2)) * w))
+        if _promised(ctx, parts, "Phonon.split"):
+            ctx.cls("Phonon.split")
+            ctx.count("oracle")
+            ctx.check(len(parts) == n, "Phonon.split|wrong-number-of-modes", got=len(parts), want=n)
+            _cmp(ctx, sum(p.reorganization_energy.as_au() for p in parts), lam_t, 1e-9,
+                 "Phonon.split|reorganisation-energy-not-conserved")
+
+
 # --------------------------------------------------------------------------------------------------- plan
-_KINDS = {"sho": _case_sho, "sine": _case_sine, "spin": _case_spin, "electron": _case_electron, "multi": _case_multi,
+_KINDS = {"phonon": _case_phonon, "sho": _case_sho, "sine": _case_sine, "spin": _case_spin, "electron": _case_electron, "multi": _case_multi,
           "hops": _case_hops, "holstein": _case_holstein, "sbm": _case_sbm, "ti": _case_ti, "jmatrix": _case_jmatrix,
           "quantity": _case_quantity}
 _LAYOUT = {}
@@ -1150,6 +1322,7 @@ def _layout(tier):
             L += [("ti", {"kind": kind, "ncell": ncell})] * (3 if quick else 90)
     L += [("jmatrix", {})] * (3 if quick else 20)
     L += [("quantity", {})] * (3 if quick else 20)
+    L += [("phonon", {})] * (30 if quick else 1500)
     _LAYOUT[tier] = L
     return L
 
@@ -1162,7 +1335,9 @@ def plan(tier):
                                  "BasisMultiElectron", "BasisMultiElectronVac", "BasisHopsBoson", "after-failed-call",
                                  "HolsteinModel", "holstein-3mol", "holstein-2mode", "holstein-omega0!=omega1",
                                  "holstein-scheme4", "holstein-J-quantity-periodic", "SpinBosonModel", "TI1DModel",
-                                 "ti-wrap-around", "construct_j_matrix", "Quantity"],
+                                 "ti-wrap-around", "construct_j_matrix", "Quantity", "Phonon", "Mol", "Phonon.split",
+                                 "simplest_phonon:lam", "simplest_phonon:displacement", "holstein-switch-scheme",
+                                 "holstein-j-constant", "holstein-j-not-constant", "Mpo.onsite", "Mpo.ph_onsite", "Mpo.intersite"],
             "required_counters": {"oracle": 10000 if quick else 500000, "history_checks": 3000 if quick else 150000,
                                   "scheme_spectra": 100 if quick else 3000, "doc_formula_spectra": 20 if quick else 500,
                                   "translation_checks": 20 if quick else 1000}}
